@@ -1,5 +1,6 @@
 import MoneroModel.Proofs.ScanTop
 import MoneroModel.Proofs.GroupInstance
+import MoneroModel.Proofs.EdwardsLawful
 open Monero Monero.Scan
 /-! # C07 — output scanning reports exactly the outputs addressed to the wallet
 
@@ -230,4 +231,24 @@ theorem C07_apis_agree (decP : Bytes → Option P) (t : Tx) (v : Nat) (S : P) (a
 
 /-- the hypotheses are satisfiable: a lawful instance exists -/
 example : ∃ (Q : Type) (_ : AddCommGroup Q) (o : CryptoOps Q), Lawful o := ⟨_, _, zmodOps, zmodOps_lawful⟩
+
+/-! ### Ed25519 itself: `Lawful` is a theorem, not an assumption
+
+`Proofs/EdwardsGroup.lean` proves that the affine twisted Edwards curve −x² + y² = 1 + d·x²·y² over GF(2^255 − 19) with the
+complete addition law is an abelian group (d is a non-square, −1 a square; associativity by explicit polynomial
+certificates); `Proofs/EdwardsRef*.lean` that the executable reference arithmetic `Ref/Ed25519.lean` (extended coordinates,
+double-and-add, RFC 8032 compression) computes in that group; `Proofs/EdwardsLawful.lean` that the resulting primitives
+record `edOps` (points = curve points, `l·G = 0`, injective encoding accepted by `dec`) is `Lawful`, and that the instance
+the compiled driver runs (`Drv.refOps`) refines it operation by operation. The theorems below are the theorems of this
+file with that instance plugged in: no hypothesis about the group is left. (That curve25519-dalek computes the same
+functions as `Ref/Ed25519.lean` remains a differential tie — dalek is a dependency.) -/
+section Ed25519
+open Monero.Edw
+
+theorem C07_ed25519_lawful : Lawful edOps ∧ RefinesEd Drv.refOps := ⟨edOps_lawful, refOps_refines_edOps⟩
+theorem C07_sound_ed25519 : type_of% (@C07_sound EdPoint _ edOps edOps_lawful) := C07_sound edOps_lawful
+theorem C07_complete_ed25519 : type_of% (@C07_complete EdPoint _ edOps edOps_lawful) := C07_complete edOps_lawful
+theorem C07_reported_iff_ed25519 : type_of% (@C07_reported_iff EdPoint _ edOps edOps_lawful) := C07_reported_iff edOps_lawful
+theorem C07_sender_reported_ed25519 : type_of% (@C07_sender_reported EdPoint _ edOps edOps_lawful) := C07_sender_reported edOps_lawful
+end Ed25519
 end C07
